@@ -33,6 +33,13 @@ def impl(py):
     else:
         f = Force(dict(py["opts"]))
         f.nodes(nodes)
+    if len(py["nodes"]) % 2 == 1:
+        # every other case: another engine with other options is built and used between the
+        # configuration of the observed engine and its compute(); engines share nothing
+        other = Force({"algorithm": "simple", "minPos": -40, "maxPos": 60, "density": 0.4, "nodeSpacing": 11,
+                       "stubWidth": 7, "lineSpacing": 5})
+        other.nodes([Node(4 * i, 9) for i in range(7)])
+        other.compute()
     f.compute()
     layers = []
     link_errors = []
